@@ -56,10 +56,14 @@ def abd(stack, plyts, laminaprops, offset=0.):
     return dict(A=A, B=B, D=D, E=E, SA=SA, SB=SB, SD=SD, SE=SE, t=t)
 
 
-def ABD6(stack, plyts, laminaprops, offset=0.):
+def ABD6(stack, plyts, laminaprops, offset=0., force_ortho=False):
     o = abd(stack, plyts, laminaprops, offset)
     F = np.block([[o['A'], o['B']], [o['B'], o['D']]])
     S = np.block([[o['SA'], o['SB']], [o['SB'], o['SD']]])
+    if force_ortho:
+        # what Panel.force_orthotropic_laminate documents: the 16 / 26 entries of A, B and D are set to zero
+        for i, j in ((0, 2), (1, 2), (0, 5), (1, 5), (3, 2), (4, 2), (3, 5), (4, 5)):
+            F[i, j] = F[j, i] = 0.0
     return F, S
 
 
